@@ -303,6 +303,10 @@ func (s *sshSimulatorService) Handle(ctx context.Context, conn net.Conn) error {
 						}
 
 						payload := decoder.String()
+						if decoder.LastError() != nil {
+							// truncated string: nothing was consumed, stop instead of spinning
+							break
+						}
 						payloads = append(payloads, payload)
 					}
 
@@ -325,6 +329,10 @@ func (s *sshSimulatorService) Handle(ctx context.Context, conn net.Conn) error {
 						}
 
 						payload := decoder.String()
+						if decoder.LastError() != nil {
+							// truncated string: nothing was consumed, stop instead of spinning
+							break
+						}
 						payloads = append(payloads, payload)
 					}
 
